@@ -158,6 +158,16 @@ def run(ctx) -> None:
             j += 1
             if ctx.mine(j):
                 pres_case(list(p), ("list", "f64", "i64")[j % 3], "enum")
+                if j % 5 == 0:
+                    # the same whole-number pressures in every integer dtype, unsigned ones included (an upcast ends
+                    # shallower than it starts: a negative overall step, not a wrap-around)
+                    adm_ = models.pressure_increasing(list(p))
+                    for cname, arr_ in gen.int_carriers(list(p)):
+                        client.expect(ctx, "C13", "argo.pressure_increasing_test", {"inp": arr_}, lambda: adm_,
+                                      logical={"pressure": list(p), "carrier": cname}, hist="pressure_increasing")
+                        ctx.count("pressure.calls")
+                        ctx.count("pressure.integer_dtype_calls")
+                        ctx.case(f"pres|int-dtype|{cname}|n{n}|{'none' if adm_ is None else 'judged'}")
     ctx.exhaustive.append("pressure_increasing_test: all sequences of length 1..5 over {0,1,2,3}")
     for _ in range(ctx.pick(300, 2000)):
         n = rng.choice([2, 3, 8, 30])
